@@ -20,7 +20,9 @@ Record link := mkLink {
   l_server : nat;           (* session of the server-side client, at l_to *)
   l_reader : nat;           (* session of the reader-side client, at l_from *)
   l_replies : list str;     (* lines travelling back to l_from *)
-  l_open : bool }.
+  l_open : bool;
+  l_sent : N;               (* lines delivered l_from -> l_to so far *)
+  l_back : N }.             (* non-ok reply lines delivered l_to -> l_from so far *)
 
 Record cnode := mkCN {
   cn_node : node;
@@ -286,7 +288,7 @@ Definition flush_outboxes (c : cluster) (name : str) : cluster :=
       let links' := map (fun l =>
           if l_open l && String.eqb (l_from l) name then
             match assoc_get String.eqb (l_to l) (n_members n) with
-            | Some (_, q) => mkLink (l_from l) (l_to l) (l_hs l) (l_q l ++ q) (l_server l) (l_reader l) (l_replies l) (l_open l)
+            | Some (_, q) => mkLink (l_from l) (l_to l) (l_hs l) (l_q l ++ q) (l_server l) (l_reader l) (l_replies l) (l_open l) (l_sent l) (l_back l)
             | None => l
             end
           else l) (c_links c) in
@@ -313,7 +315,7 @@ Definition open_link (c : cluster) (from : str) (nl : newlink * list str) : clus
       let xt0 := match get_cn c1 to with Some y => y | None => xt end in
       let '(xt1, sv) := new_session xt0 empty_sess in
       let c2 := put_cn c1 to xt1 in
-      mkCl (c_nodes c2) (c_links c2 ++ [mkLink from to hs initial sv rd [] true]) (c_cross c2)
+      mkCl (c_nodes c2) (c_links c2 ++ [mkLink from to hs initial sv rd [] true 0 0]) (c_cross c2)
   | _, _ => c
   end.
 
@@ -367,7 +369,7 @@ Definition deliver (c : cluster) (i : nat) : option cluster :=
                         end in
           let n2 := send n1 (l_server l) status in
           let '(n3, inbox) := drain n2 (l_server l) in
-          let l' := mkLink (l_from l) (l_to l) hs' q' (l_server l) (l_reader l) (l_replies l ++ split_lines inbox) true in
+          let l' := mkLink (l_from l) (l_to l) hs' q' (l_server l) (l_reader l) (l_replies l ++ split_lines inbox) true (l_sent l + 1) (l_back l) in
           let c1 := put_cn c (l_to l) (cn_set_node x n3) in
           let c2 := set_link c1 i l' in
           Some (flush_outboxes (mkCl (c_nodes c2) (c_links c2) (c_cross c2 + 1)) (l_to l))
@@ -382,8 +384,9 @@ Definition reply (c : cluster) (i : nat) : option cluster :=
   | Some l =>
       match l_replies l, get_cn c (l_from l) with
       | ln :: rest, Some x =>
-          let l' := mkLink (l_from l) (l_to l) (l_hs l) (l_q l) (l_server l) (l_reader l) rest (l_open l) in
-          if String.eqb ln "ok" then Some (set_link c i l')
+          let l0 := mkLink (l_from l) (l_to l) (l_hs l) (l_q l) (l_server l) (l_reader l) rest (l_open l) (l_sent l) (l_back l) in
+          let l' := mkLink (l_from l) (l_to l) (l_hs l) (l_q l) (l_server l) (l_reader l) rest (l_open l) (l_sent l) (l_back l + 1) in
+          if String.eqb ln "ok" then Some (set_link c i l0)
           else
             let '(n1, _) := step (cn_node x) (l_reader l) ln in
             let '(n2, _) := drain n1 (l_reader l) in
